@@ -53,6 +53,7 @@ impl Check for C05 {
                 c05_case(ctx, &q, &crate::model::prot_slot(&p), &[]);
                 c05_case(ctx, &p, b"Encrypt0", &[]);
                 c05_case(ctx, &p, b"", &[]);
+                unencodable_header_case(ctx, "Enc_structure", &a1, &[]);
             }
         }
     }
